@@ -33,6 +33,7 @@ type RunResult struct {
 	Harness       string           `json:"harness,omitempty"`        // harness trouble (exit 2)
 	Stmts         int              `json:"stmts"`
 	Images        int              `json:"images"`
+	StmtClass     []string         `json:"-"`                   // kind of each main-timeline statement, with "-refused" / "-refused-at-later-row"
 	EvCounts      []int            `json:"ev_counts,omitempty"` // yield points per statement of the main timeline
 	Trace         []string         `json:"trace,omitempty"`     // per-statement outcome digest of the main timeline
 	DerivedPlan   *Plan            `json:"derived_plan,omitempty"`
@@ -651,6 +652,14 @@ func (t *timeline) run() {
 		w.EndStmt()
 		if t.path == "" {
 			t.r.res.EvCounts = append(t.r.res.EvCounts, w.evIdx)
+			cls := s.Kind
+			if res.Err != nil {
+				cls += "-refused"
+				if exp.FailAt > 0 {
+					cls += "-at-later-row"
+				}
+			}
+			t.r.res.StmtClass = append(t.r.res.StmtClass, cls)
 			t.r.res.Trace = append(t.r.res.Trace, fmt.Sprintf("%s:%s:%s", s.Kind, errClass(res.Err), rowsDigest(res.Rows)))
 		}
 		if t.stop {
